@@ -316,7 +316,8 @@ func ruleAggKindPerSource(c *eng.Ctx) {
 func ruleEventCollectionID(c *eng.Ctx) {
 	const rule = "EVENT-COLLECTION-ID"
 	n := 0
-	for _, fi := range c.P.FuncsIn("internal/db") {
+	// producers of update events: the database (first publication) and the network layer (retried pushes)
+	for _, fi := range append(c.P.FuncsIn("internal/db"), c.P.FuncsIn("net")...) {
 		if fi.Decl.Body == nil || isTestFile(c.P, fi) {
 			continue
 		}
@@ -337,15 +338,51 @@ func ruleEventCollectionID(c *eng.Ctx) {
 				}
 				ord++
 				n++
-				isColID := func(e ast.Expr) bool {
-					se, ok := ast.Unparen(e).(*ast.SelectorExpr)
-					if !ok || se.Sel.Name != "CollectionID" {
+				// a collection id: a field named CollectionID, or the schema root (a collection's id IS
+				// its schema root: Version.CollectionID is assigned from schema.Root when it is defined)
+				isColIDIn := func(inf *types.Info, e ast.Expr) bool {
+					e = ast.Unparen(e)
+					if call, ok := e.(*ast.CallExpr); ok && len(call.Args) == 0 {
+						if se, ok := call.Fun.(*ast.SelectorExpr); ok && se.Sel.Name == "SchemaRoot" {
+							return true
+						}
 						return false
 					}
-					v, ok := info.Uses[se.Sel].(*types.Var)
-					return ok && v.IsField()
+					se, ok := e.(*ast.SelectorExpr)
+					if !ok || (se.Sel.Name != "CollectionID" && se.Sel.Name != "Root") {
+						return false
+					}
+					v, ok := inf.Uses[se.Sel].(*types.Var)
+					if !ok || !v.IsField() {
+						return false
+					}
+					return se.Sel.Name == "CollectionID" || strings.HasSuffix(eng.TypeName(inf.TypeOf(se.X)), "SchemaDescription")
 				}
+				isColID := func(e ast.Expr) bool { return isColIDIn(info, e) }
 				good := isColID(kv.Value)
+				// a parameter: every caller in the package passes a collection id
+				if o := eng.ObjOf(info, kv.Value); !good && o != nil {
+					for pi, po := range paramObjs(info, fi.Decl) {
+						if po != o {
+							continue
+						}
+						callers, allGood := 0, true
+						for _, g := range c.P.FuncsIn(eng.ShortPkg(fi.Pkg.PkgPath)) {
+							if g.Decl.Body == nil || isTestFile(c.P, g) {
+								continue
+							}
+							for _, cs := range eng.Calls(g.Pkg.TypesInfo, g.Decl.Body) {
+								if cs.Name == fi.Name && pi < len(cs.Call.Args) {
+									callers++
+									if !isColIDIn(g.Pkg.TypesInfo, cs.Call.Args[pi]) {
+										allGood = false
+									}
+								}
+							}
+						}
+						good = callers > 0 && allGood
+					}
+				}
 				if o := eng.ObjOf(info, kv.Value); !good && o != nil {
 					defs, all := 0, true
 					ast.Inspect(fi.Decl.Body, func(y ast.Node) bool {
@@ -364,7 +401,7 @@ func ruleEventCollectionID(c *eng.Ctx) {
 					good = defs > 0 && all
 				}
 				c.Check(good, rule, fmt.Sprintf("%s:event.Update#%d:CollectionID", shortFn(fi), ord), kv.Pos(), "addressed by the collection's id",
-					"the update event is addressed with "+eng.ExprStr(kv.Value)+" instead of the collection version's CollectionID: after a schema patch the commit is published under an id no peer subscribes to and no replicator is registered for — nodes on different schema versions stop receiving it")
+					"the update event is addressed with "+eng.ExprStr(kv.Value)+" instead of the collection version's CollectionID: after a schema patch the commit is published under an id no peer subscribes to and no replicator is registered for, and a receiver at another schema version cannot resolve the collection — nodes on different schema versions stop receiving it")
 			}
 			return true
 		})
